@@ -2,7 +2,7 @@
    into a builder call sequence, run the model, encode the result as a list of integers.
    The same encoding is implemented by harness/src/bin/impl_run.rs. *)
 From Coq Require Import ZArith Bool List.
-From TS Require Import Base.F32 Model.Rect Model.PathBuilder Model.Conic.
+From TS Require Import Base.F32 Model.Rect Model.PathBuilder Model.Conic Model.Transform Model.PathOps.
 Import ListNotations.
 Local Open Scope Z_scope.
 
@@ -29,7 +29,7 @@ Section Dec.
   Variable fp : list pt -> option rect.
 
   (* op codes: 0 move, 1 line, 2 quad, 3 cubic, 4 close, 5 push_rect(ltrb), 6 push_oval(ltrb),
-     7 push_circle, 8 n <sub-ops of total length n> push_path, 9 clear.  Rect arguments go
+     7 push_circle, 8 n <sub-ops of total length n> push_path, 9 clear, 10 finish + Path::clear.  Rect arguments go
      through Rect::from_ltrb; if that returns None the op is skipped.  Unknown/truncated input
      ends the sequence. *)
   Fixpoint run_ops (fuel : nat) (b : builder) (l : list Z) : builder :=
@@ -62,6 +62,11 @@ Section Dec.
             | None => run_ops fuel' b rest
             end
         | 9 :: r => run_ops fuel' (clear b) r
+        | 10 :: r => (* finish; Path::clear() gives the builder back (a failed finish drops it) *)
+            match finish_gen fp b with
+            | Some p => run_ops fuel' (path_clear p) r
+            | None => run_ops fuel' new_builder r
+            end
         | _ => b
         end
     end.
@@ -83,3 +88,15 @@ Fixpoint dec_pts (l : list Z) : list pt :=
   end.
 Definition run_from_points (l : list Z) : list Z :=
   match from_points (dec_pts l) with Some r => enc_rect r | None => [-1] end.
+
+(* Path::transform: args = sx kx ky sy tx ty (bits) followed by builder ops *)
+Definition run_c14_transform (l : list Z) : list Z :=
+  match l with
+  | a :: b :: c :: d :: e :: f :: ops =>
+      let t := mkts (fz a) (fz b) (fz c) (fz d) (fz e) (fz f) in
+      match finish (run_ops push_path from_points (S (length ops)) new_builder ops) with
+      | Some p => enc_path (path_transform t p)
+      | None => [-2]
+      end
+  | _ => [-3]
+  end.
